@@ -17,6 +17,7 @@ def run(S):
     dust_exposure_limit(S, D, 1 if S.tier == 'quick' else 2, 'C02.d')
     forward_admission_manager(S, D, 'C02.e')
     policy_window(S, D)
+    onchain_dedup(S, D)
     E = S.engine()
     f = S.fn('internal_htlc_satisfies_config')
     mem = {}
@@ -245,3 +246,57 @@ def policy_window(S, D):
     S.prove(ids[1], E2, pre2, claim_t,
             'one timer tick: the tick count of a replaced policy grows by one and the policy is dropped when the count reaches EXPIRE_PREV_CONFIG_TICKS = 5 (invariant count < 5 preserved: an inductive step over any number of ticks); the current policy is untouched',
             [prev_config_binding(claim_t)], bounds='whole function from an arbitrary state satisfying the invariant')
+
+
+def onchain_dedup(S, D):
+    """C02.g: the preimage a downstream peer reveals ON CHAIN must reach every upstream HTLC it settles.
+    `ChannelMonitorImpl::is_resolving_htlc_output` queues one `MonitorEvent::HTLCEvent` per resolved HTLC unless an event
+    "for this HTLC" is already pending; the test is a closure over the pending events. Each such closure (they are found by
+    their signature, `(&MonitorEvent) -> bool`) run on an arbitrary event: true iff the event is an HTLCEvent whose SOURCE is
+    this HTLC's source - the identity of the HTLC. Two HTLCs with the same payment hash (MPP parts through one forwarder, a
+    re-used hash) are different HTLCs: an event for one must not suppress the other's."""
+    import re
+    from .C10 import _closure_env, _ident, _deref_all
+    ix = S.mir()
+    cl = [ix.get(i) for i in range(len(ix.offsets))
+          if re.search(r'::is_resolving_htlc_output::\{closure#\d+\}\(_1: &mut \{closure@[^{}]*\}, _2: &(?:\w+::)*MonitorEvent\) -> bool', ix.offsets[i][0])]
+    ids = ['C02.g.dedup_by_htlc_identity', 'C02.g.witness']
+    if all(S._skip(o) for o in ids):
+        return
+    if len(cl) < 2:
+        raise X.Unsupported('is_resolving_htlc_output: %d de-duplication closures' % len(cl))
+    HEV = D.variant_index('MonitorEvent', 'HTLCEvent')
+    HU = D.struct_fields('HTLCUpdate')
+    nvar = len(D.enum_variants('MonitorEvent'))
+    claims, wit = [], []
+    E = S.engine(unwind=1)
+    compared = []
+
+    def h_eq(E_, m, func, argv, guard, mem_, dty, caller):
+        a, b = _deref_all(E_, argv[0], mem_), _deref_all(E_, argv[1], mem_)
+        compared.append((m.group(1), X.zbool(guard)))
+        return X.B(_ident(a) == _ident(b))
+    E.models.insert(0, (re.compile(r'^<&*(?:\w+::)*(HTLCSource|PaymentHash|PaymentPreimage) as PartialEq>::eq$'), h_eq))
+    for k, f in enumerate(cl):
+        mem = {}
+        kind = E.sym('event%d.kind' % k, 'u8')
+        E.assume(z3.And(kind.t >= 0, kind.t < nvar))
+        upd = X.Adt('HTLCUpdate', {HU.index('source'): X.Adt('HTLCSource', {}, base='event%d.source' % k),
+                                   HU.index('payment_hash'): X.Adt('PaymentHash', {}, base='event%d.payment_hash' % k)}, base='event%d.update' % k)
+        ev_c, src_c, hash_c = E.new_cell(), E.new_cell(), E.new_cell()
+        mem[ev_c] = X.En('MonitorEvent', kind.t, {HEV: [upd]}, base='event%d' % k)
+        mem[src_c] = X.Adt('HTLCSource', {}, base='htlc%d.source' % k)
+        mem[hash_c] = X.Adt('PaymentHash', {}, base='htlc%d.payment_hash' % k)
+        given = {'source': X.Ref(src_c), 'payment_hash': X.Ref(hash_c)}
+        env = _closure_env(E, f, mem, given)
+        rv = S.call(E, f, [env, X.Ref(ev_c)], mem)
+        same_src = z3.Int('ident.event%d.source' % k) == z3.Int('ident.htlc%d.source' % k)
+        claims.append(X.zbool(rv.t) == z3.And(kind.t == HEV, same_src))
+        wit.append(X.zbool(rv.t))
+    claim = z3.And(*claims)
+    b = Binding('onchain_dedup_battery', [z3.IntVal(0)], [z3.If(claim, 0, 1)], parse=lambda t: [0 if t[0] == '0' else 1], line_fn=lambda v: '0',
+                which='oracle_tu', via_solver=True, domain=[(0, 0)], panic=False)
+    S.prove(ids[0], E, [], claim,
+            'an on-chain HTLC resolution is treated as already reported only if a pending HTLCEvent carries the SAME HTLC source; an event for another HTLC with the same payment hash does not suppress it - so the preimage revealed on chain reaches every upstream HTLC it settles',
+            [b], bounds='the %d de-duplication closures of is_resolving_htlc_output, each on an arbitrary pending event (any kind); sources / hashes as abstract identities' % len(cl))
+    S.witness(ids[1], E, [], z3.And(*wit))
